@@ -233,6 +233,14 @@ public:
     {
         auto bPt = int(b.lower());
         auto i = boost::numeric::nth_root(a.i, bPt);
+        // Boost returns a NaN bound for the root of an infinite bound, which
+        // min / max / comparisons downstream would silently drop
+        if (std::isnan(i.upper()) && a.upper() == INFINITY) {
+            i = I(i.lower(), INFINITY);
+        }
+        if (std::isnan(i.lower()) && a.lower() == -INFINITY) {
+            i = I(-INFINITY, i.upper());
+        }
 
         // We can only take odd nth roots on negative values
         const bool u = a.maybe_nan || b.maybe_nan ||
